@@ -72,10 +72,7 @@ func init() {
 
 func init() {
 	// C01 (design §5): pipeline integrity re-uses the guards of the components on the path to the beacon node.
-	Link("C01", "C09", "(C09.G1/G2/G6) the aggregate handed on is the verified one, published all-or-nothing, with the verifying constructor wired.", []string{"G1", "G2", "G6"},
-		Mutant{ID: "C01-link-aggregate-verify-logged", File: "core/sigagg/sigagg.go", Expect: "C09.G1",
-			Old: "\t\tspan.SetStatus(codes.Error, err.Error())\n\n\t\treturn nil, err\n\t}\n\n\treturn aggSig, nil",
-			New: "\t\tspan.SetStatus(codes.Error, err.Error())\n\t}\n\n\treturn aggSig, nil"})
+	Link("C01", "C09", "(C09.G1/G2/G6) the aggregate handed on is the verified one, published all-or-nothing, with the verifying constructor wired.", []string{"G1", "G2", "G6"})
 	Link("C01", "C07", "(C07.P3/P4/P8) aggregation is triggered only with one message-root group of exactly threshold distinct shares.", []string{"P3", "P4", "P8"},
 		Mutant{ID: "C01-link-threshold-set-replaced", File: "core/parsigdb/memory.go", Expect: "C07.P3",
 			Old: "\t\tpsigs, ok, err := getThresholdMatching(duty.Type, sigs, db.threshold)", New: "\t\tpsigs, ok, err := getThresholdMatching(duty.Type, sigs, db.threshold)\n\t\tpsigs = sigs"})
